@@ -34,6 +34,7 @@ mod fam_statrel;
 mod fam_stream;
 mod sched;
 mod fam_text;
+mod fam_textgrammar;
 mod fam_toolchain;
 mod fam_view;
 mod symbolic;
@@ -82,6 +83,7 @@ fn family(name: &str) -> Option<Runner> {
         "statrel" => fam_statrel::run,
         "stream" => fam_stream::run,
         "text" => fam_text::run,
+        "textgrammar" => fam_textgrammar::run,
         "toolchain" => fam_toolchain::run,
         "view" => fam_view::run,
         _ => return None,
